@@ -735,7 +735,8 @@ pub fn components() -> serde_json::Value {
             "CommSender (real serialised ToWorkerMessage bytes), ServerRef API, worker_receive_loop",
             "HQ State, Job, UpstreamEventProcessor, client_rpc_loop with submit/cancel/close/forget/open/info/detail/stop-worker/prune/flush handlers, EventStreamer",
             "JournalWriter + streaming_process on a scratch file (when the journal is enabled)",
-            "per worker: WorkerState, worker_message_loop, process_worker_message, compute_tasks, prefill_loop, handle_task_future, retract_tasks, cancel_task, retract_check_process, ResourceAllocator, pools, group_solver"
+            "per worker: WorkerState, worker_message_loop, process_worker_message, compute_tasks, prefill_loop, handle_task_future, retract_tasks, cancel_task, retract_check_process, ResourceAllocator, pools, group_solver",
+            "AutoAllocState for allocation queues (create, restore, remove, ids) and, in a quarter of the runs, the autoalloc scheduling pass (perform_submits -> compute_new_worker_query against the run's core; every submission is refused by a null batch system)"
         ],
         "stub": [
             "TCP, framing, encryption, authentication (replaced by FIFO queues of the same bytes)",
@@ -744,7 +745,7 @@ pub fn components() -> serde_json::Value {
             "run_worker select loop, heartbeats, overview/HW sampling, shutdown paths (mirrored: time limit, Stop, connection loss)",
             "server-side heartbeat/idle-timeout timers (their effects are injected as loss reasons)",
             "TaskLauncher and the program it would run (fake launcher honouring StopReason)",
-            "autoalloc service (messages are dropped into an unpolled queue)"
+            "autoalloc service behind senders.autoalloc (worker connect/loss and job-submit notifications are dropped into an unpolled queue), autoalloc_process select loop, batch system"
         ]
     })
 }
